@@ -170,6 +170,55 @@ def write_sbml(doc: dict, path: Path) -> None:
     path.parent.mkdir(parents=True, exist_ok=True)
     if not libsbml.writeSBMLToFile(d, str(path)):
         raise RuntimeError(f"libsbml could not write {path}")
+    _full_precision(doc, path)
+
+
+def _short(v: float) -> bool:
+    """libsbml writes attribute values with 15 significant digits: does that text read back as v?"""
+    return float("%.15g" % v) == v
+
+
+def _full_precision(doc: dict, path: Path) -> None:
+    """Numbers that need 16/17 digits are re-written with their repr (the file then SAYS that double); files
+    whose numbers all print exactly with 15 digits (every document of the older streams) are left as libsbml
+    wrote them."""
+    import re
+
+    sto = [float(Fraction(*st)) for r in doc.get("reactions", []) for sp, st in r["reactants"] + r["products"]]
+    attrs: list[tuple[str, str, str, float]] = []
+    for c in doc.get("compartments", []):
+        attrs.append(("compartment", c["id"], "size", float(Fraction(*c["size"]))))
+    for s in doc.get("species", []):
+        attrs.append(("species", s["id"], "initialAmount" if s["kind"] == "amount" else "initialConcentration", float(Fraction(*s["init"]))))
+    for p in doc.get("parameters", []):
+        attrs.append(("parameter", p["id"], "value", float(Fraction(*p["value"]))))
+    if all(_short(v) for v in sto) and all(_short(a[3]) for a in attrs):
+        return
+    text = path.read_text()
+    it = iter(sto)
+    n_seen = 0
+
+    def sub_sto(m):  # noqa: ANN001, ANN202
+        nonlocal n_seen
+        n_seen += 1
+        v = next(it)
+        return m.group(0) if _short(v) else f'stoichiometry="{v!r}"'
+
+    text = re.sub(r'stoichiometry="[^"]*"', sub_sto, text)
+    if n_seen != len(sto):
+        raise RuntimeError(f"{path}: {n_seen} stoichiometry attributes written, {len(sto)} expected")
+    for tag, ident, attr, v in attrs:
+        if _short(v):
+            continue
+        pat = re.compile(r"<" + tag + r'\b[^>]*\bid="' + re.escape(ident) + r'"[^>]*>')
+        m = pat.search(text)
+        if m is None:
+            raise RuntimeError(f"{path}: element {tag} {ident} not found")
+        new_tag, k = re.subn(r"\b" + attr + r'="[^"]*"', f'{attr}="{v!r}"', m.group(0))
+        if k != 1:
+            raise RuntimeError(f"{path}: attribute {attr} of {tag} {ident} not found")
+        text = text[: m.start()] + new_tag + text[m.end() :]
+    path.write_text(text)
 
 
 def syms(e, doc: dict | None = None) -> set[str]:
@@ -315,6 +364,9 @@ class Meaning:
             base[s["id"]] = Fraction(*s["init"])
         exprs = dict(self.rules)
         exprs.update(self.inits)
+        # SBML L3: a reaction id inside other math stands for the rate of that reaction
+        for r in self.doc.get("reactions", []):
+            exprs.setdefault(r["id"], r["math"])
         env = self._lazy_env(base, exprs)
         out = {}
         for n in base:
